@@ -163,6 +163,9 @@ Props/C19.vos Props/C19.vok Props/C19.required_vos: Props/C19.v Model/Route.vos 
 Props/C18.vo Props/C18.glob Props/C18.v.beautified Props/C18.required_vo: Props/C18.v Model/Poll.vo Proofs/PC18.vo
 Props/C18.vio: Props/C18.v Model/Poll.vio Proofs/PC18.vio
 Props/C18.vos Props/C18.vok Props/C18.required_vos: Props/C18.v Model/Poll.vos Proofs/PC18.vos
+Props/C20.vo Props/C20.glob Props/C20.v.beautified Props/C20.required_vo: Props/C20.v Model/Mon.vo Model/MonC01.vo Model/MonC03.vo Proofs/StorePromises.vo Proofs/SysInv.vo Proofs/PC01.vo Proofs/PC03.vo
+Props/C20.vio: Props/C20.v Model/Mon.vio Model/MonC01.vio Model/MonC03.vio Proofs/StorePromises.vio Proofs/SysInv.vio Proofs/PC01.vio Proofs/PC03.vio
+Props/C20.vos Props/C20.vok Props/C20.required_vos: Props/C20.v Model/Mon.vos Model/MonC01.vos Model/MonC03.vos Proofs/StorePromises.vos Proofs/SysInv.vos Proofs/PC01.vos Proofs/PC03.vos
 Props/C15.vo Props/C15.glob Props/C15.v.beautified Props/C15.required_vo: Props/C15.v Gen/Status.vo Spec/Front15.vo Model/Coro.vo
 Props/C15.vio: Props/C15.v Gen/Status.vio Spec/Front15.vio Model/Coro.vio
 Props/C15.vos Props/C15.vok Props/C15.required_vos: Props/C15.v Gen/Status.vos Spec/Front15.vos Model/Coro.vos
